@@ -97,7 +97,6 @@ def gen_case(d, shard, tier):
         x0 = [x0[0] // 4, 1]           # integer initial point (0 possible)
     q = lambda lo, hi, den: [d.int(lo, hi), den]
     nz = lambda m, den: [d.choice([-1, 1]) * d.int(1, m), den]
-    ricc_y0 = None
     if doc:
         x0 = [0, 1]
         if fam == "exp":
@@ -136,7 +135,6 @@ def gen_case(d, shard, tier):
         if yv < 0:
             Lfam = 0.5 / abs(yv)            # pole at x0 + 1/|y0|; stay in the first half
             lam = 2 * abs(yv)
-        ricc_y0 = yv
     elif fam == "gauss":
         x0 = [d.int(-12, 8), 4]
         y0 = [nz(8, 4)]
@@ -299,6 +297,14 @@ class Problem:
         Pi = [[d_, -b], [-c_, a]]
         D = [l1, l2]
         return [[sum(Fraction(P[i][k]) * D[k] * Pi[k][j] for k in range(2)) for j in range(2)] for i in range(2)]
+
+    def in_domain(self, xf, xmax):
+        """boundary points read from the closure are used only inside the generated range (plus one step)"""
+        if xf < self.x0f or xf > xmax + Fraction(1, 2):
+            return False
+        if self.fam == "ricc" and self.y0f[0] < 0:
+            return 1 + self.y0f[0] * (xf - self.x0f) >= Fraction(1, 4)
+        return True
 
     def exact(self, xf):
         """(values, G, S) in the reference context at the exact rational x"""
@@ -481,7 +487,7 @@ def check_case(c):
                 mp.prec = p0
 
         # ---- the twin: identical arguments, sorted distinct points, creation precision throughout
-        calls[1] = 20 * c.get("effort", 10 ** 6) + 20000        # safety net (a mutated tree may crawl): inconclusive
+        calls[1] = 4 * c.get("effort", 10 ** 6) + 2000        # safety net (a mutated tree may crawl): inconclusive
         try:
             return _rest(c, res, mp, mpref, prob, calls, make, kw, as_list, bound, mkx, desc, fam, p0)
         except _Runaway:
@@ -493,154 +499,158 @@ def check_case(c):
 
 
 def _rest(c, res, mp, mpref, prob, calls, make, kw, as_list, bound, mkx, desc, fam, p0):
-    if True:
-        g = make(p0, kw)
-        if mp.prec != p0:
-            res.bad("prec-leak:create", "%s: mp.prec = %d afterwards" % (desc, mp.prec))
-            mp.prec = p0
-        planned = sorted(set(prob.x0f + Fraction(c["pts"][op[1]], 16) for op in c["ops"] if op[0] == "eval"))
-        gv = {}
-        for xf in planned:
-            vl = as_list(g(mkx(xf)), "g(%s)" % xf)
-            if vl is None:
-                return res
-            gv[xf] = vl
-        # segment boundaries (white box; the points where the lookup switches segments)
-        bl = _boundaries(g)
-        bnds = [_to_fraction(b) for b in bl] if bl else []
-        xs_ops = []
-        for op in c["ops"]:
-            if op[0] == "eval":
-                xs_ops.append(prob.x0f + Fraction(c["pts"][op[1]], 16))
-            elif op[0] == "bnd":
-                xs_ops.append(bnds[op[1] % len(bnds)] if bnds else None)
-            else:
-                xs_ops.append(None)
-        for xf in sorted(set(x for x in xs_ops if x is not None and x not in gv)):
-            vl = as_list(g(mkx(xf)), "g(%s)" % xf)
-            if vl is None:
-                return res
-            gv[xf] = vl
-        calls_g = calls[0]
-        calls[1] = None
+    """twin, history, oracles (check_case sets up the problem and restores the precisions)"""
+    g = make(p0, kw)
+    if mp.prec != p0:
+        res.bad("prec-leak:create", "%s: mp.prec = %d afterwards" % (desc, mp.prec))
+        mp.prec = p0
+    planned = sorted(set(prob.x0f + Fraction(c["pts"][op[1]], 16) for op in c["ops"] if op[0] == "eval"))
+    gv = {}
+    for xf in planned:
+        vl = as_list(g(mkx(xf)), "g(%s)" % xf)
+        if vl is None:
+            return res
+        gv[xf] = vl
+    # segment boundaries (white box; the points where the lookup switches segments)
+    bl = _boundaries(g)
+    bnds = [_to_fraction(b) for b in bl] if bl else []
+    xs_ops = []
+    for op in c["ops"]:
+        if op[0] == "eval":
+            xs_ops.append(prob.x0f + Fraction(c["pts"][op[1]], 16))
+        elif op[0] == "bnd":
+            xb = bnds[op[1] % len(bnds)] if bnds else None
+            if xb is not None and not prob.in_domain(xb, planned[-1] if planned else prob.x0f):
+                xb = None              # (only a mutated tree puts a boundary beyond the generated range)
+            xs_ops.append(xb)
+        else:
+            xs_ops.append(None)
+    for xf in sorted(set(x for x in xs_ops if x is not None and x not in gv)):
+        vl = as_list(g(mkx(xf)), "g(%s)" % xf)
+        if vl is None:
+            return res
+        gv[xf] = vl
+    calls_g = calls[0]
+    calls[1] = None
+    res.metrics["F calls of the twin / estimate"] = calls_g / float(max(1, c.get("effort", 1)))
 
-        # ---- the history
-        def run_history(f, label):
-            cur = p0
-            hist = []            # (xf, pnow, values)
-            seen = {}
-            mp.prec = p0
-            for op, xf in zip(c["ops"], xs_ops):
-                if op[0] == "prec":
-                    cur = op[1]
-                    mp.prec = cur
-                    continue
-                if xf is None:
-                    continue
-                x = mkx(xf)
+    # ---- the history
+    def run_history(f, label):
+        cur = p0
+        hist = []            # (xf, pnow, values)
+        seen = {}
+        mp.prec = p0
+        for op, xf in zip(c["ops"], xs_ops):
+            if op[0] == "prec":
+                cur = op[1]
                 mp.prec = cur
-                xarg = int(xf) if (c["x_as_int"] and xf.denominator == 1) else x
-                v = f(xarg)
-                if mp.prec != cur:
-                    res.bad("prec-leak:eval", "%s: evaluation at x=%s at prec %d left mp.prec = %d" % (desc, xf, cur, mp.prec))
-                    mp.prec = cur
-                vl = as_list(v, "%s(%s)" % (label, xf))
-                if vl is None:
-                    return None
-                key = (xf, cur)
-                raws = [tuple(t._mpf_) for t in vl]
-                if key in seen and seen[key] != raws and label == "f":
-                    res.bad("repeat:%s" % fam, "%s: two evaluations at x=%s at the same precision %d gave %s and %s" % (
-                        desc, xf, cur, [mp.nstr(mp.make_mpf(t), 20) for t in seen[key]], [mp.nstr(t, 20) for t in vl]))
-                seen.setdefault(key, raws)
-                hist.append((xf, cur, vl))
-            mp.prec = p0
-            return hist
+                continue
+            if xf is None:
+                continue
+            x = mkx(xf)
+            mp.prec = cur
+            xarg = int(xf) if (c["x_as_int"] and xf.denominator == 1) else x
+            v = f(xarg)
+            if mp.prec != cur:
+                res.bad("prec-leak:eval", "%s: evaluation at x=%s at prec %d left mp.prec = %d" % (desc, xf, cur, mp.prec))
+                mp.prec = cur
+            vl = as_list(v, "%s(%s)" % (label, xf))
+            if vl is None:
+                return None
+            key = (xf, cur)
+            raws = [tuple(t._mpf_) for t in vl]
+            if key in seen and seen[key] != raws and label == "f":
+                res.bad("repeat:%s" % fam, "%s: two evaluations at x=%s at the same precision %d gave %s and %s" % (
+                    desc, xf, cur, [mp.nstr(mp.make_mpf(t), 20) for t in seen[key]], [mp.nstr(t, 20) for t in vl]))
+            seen.setdefault(key, raws)
+            hist.append((xf, cur, vl))
+        mp.prec = p0
+        return hist
 
-        def worst_error(hist):
-            worst = None
-            for xf, pnow, vl in hist:
-                vals, b = bound(xf, pnow)
-                err = max(abs(mpref.mp.make_mpf(g_._mpf_) - e) for g_, e in zip(vl, vals))
-                ratio = err / b
-                if worst is None or ratio > worst[0]:
-                    worst = (ratio, xf, pnow, vl, vals, err, b)
-            return worst
-
-        calls[0] = 0
-        calls[1] = 4 * calls_g + 2000
-        f = make(p0, kw)
-        try:
-            hist = run_history(f, "f")
-        except _Runaway:
-            mp.prec = p0
-            order = [str(x) if x is not None else "prec=%d" % op[1] for op, x in zip(c["ops"], xs_ops)]
-            res.nontrivial = True
-            return res.bad("runaway:%s" % fam, "%s: the history %s needs more than %d evaluations of F (and does not "
-                           "finish), the same points in increasing order at the creation precision need %d" % (
-                               desc, order, calls[1], calls_g))
-        finally:
-            calls[1] = None
-        if hist is None:
-            return res
-        res.n = max(1, len(hist))
-        order_x = [h[0] for h in hist]
-        precs = [h[1] for h in hist]
-        monotone = all(order_x[i] < order_x[i + 1] for i in range(len(order_x) - 1))
-        res.nontrivial = (not monotone) or any(q != p0 for q in precs)
-        if not hist:
-            return res
-
-        # ---- oracle (i): closed form
+    def worst_error(hist):
+        worst = None
         for xf, pnow, vl in hist:
-            if pnow >= p0:
-                vals, b = bound(xf, pnow)
-                err = max(abs(mpref.mp.make_mpf(g_._mpf_) - e) for g_, e in zip(vl, vals))
-                if err:
-                    lr = float(mpref.log(err / b, 2))
-                    if "log2(err/bound)" not in res.metrics or lr > res.metrics["log2(err/bound)"]:
-                        res.metrics["log2(err/bound)"] = lr
-        worst = worst_error(hist)
-        accuracy_failed = worst[0] > 1
-        if accuracy_failed:
-            ratio, xf, pnow, vl, vals, err, b = worst
-            # diagnosis (names the bucket, not the verdict): replay the same history on an instance whose only
-            # difference is that it is created with 40 more bits (tol and degree pinned to the values in force)
-            kw2 = dict(kw)
-            if "tol" not in kw2:
-                kw2["tol"] = mp.ldexp(mp.mpf(1), -p0)
-            if "degree" not in kw2:
-                mp.prec = p0
-                kw2["degree"] = 3 + int(3 * mp.dps / 2.)
-            bucket = "accuracy:%s" % fam
-            try:
-                nv = len(res.violations)
-                h2 = run_history(make(p0 + 40, kw2), "f2")
-                del res.violations[nv:]
-                if h2 and worst_error(h2)[0] <= 1:
-                    bucket = "accuracy:first-segment"
-            except Exception:
-                pass
-            finally:
-                mp.prec = p0
-            res.bad(bucket, "%s: f(%s) evaluated at prec %d = %s, exact %s; error %s is %s times the allowed %s%s" % (
-                desc, xf, pnow, [mp.nstr(t, 25) for t in vl], [mpref.nstr(t, 25) for t in vals], mpref.nstr(err, 5),
-                mpref.nstr(ratio, 5), mpref.nstr(b, 5),
-                " (the same history is accurate when the first segment is computed with 40 more bits)"
-                if bucket.endswith("segment") else ""))
+            vals, b = bound(xf, pnow)
+            err = max(abs(mpref.mp.make_mpf(g_._mpf_) - e) for g_, e in zip(vl, vals))
+            ratio = err / b
+            if worst is None or ratio > worst[0]:
+                worst = (ratio, xf, pnow, vl, vals, err, b)
+        return worst
 
-        # ---- oracle (ii): the twin evaluated in increasing order
-        for xf, pnow, vl in hist:
-            vals, b = bound(xf, min(pnow, p0))
-            ga = [mpref.mp.make_mpf(t._mpf_) for t in vl]
-            gb = [mpref.mp.make_mpf(t._mpf_) for t in gv[xf]]
-            diff = max(abs(a - b_) for a, b_ in zip(ga, gb))
-            # both values are roundings (to p_now and to p) of numbers of their own size
-            b = b + mpref.ldexp(max(abs(t) for t in ga + gb), 1 - min(pnow, p0))
-            if not diff <= b:
-                res.bad("order:%s" % fam, "%s: f(%s) in the history order %s (precisions %s) = %s but %s when the points "
-                        "are evaluated in increasing order at prec %d; difference %s, allowed %s" % (
-                            desc, xf, [str(t) for t in order_x], precs, [mp.nstr(t, 25) for t in vl],
-                            [mp.nstr(t, 25) for t in gv[xf]], p0, mpref.nstr(diff, 5), mpref.nstr(b, 5)))
-                break
+    calls[0] = 0
+    calls[1] = 4 * calls_g + 2000
+    f = make(p0, kw)
+    try:
+        hist = run_history(f, "f")
+    except _Runaway:
+        mp.prec = p0
+        order = [str(x) if x is not None else "prec=%d" % op[1] for op, x in zip(c["ops"], xs_ops)]
+        res.nontrivial = True
+        return res.bad("runaway:%s" % fam, "%s: the history %s needs more than %d evaluations of F (and does not "
+                       "finish), the same points in increasing order at the creation precision need %d" % (
+                           desc, order, calls[1], calls_g))
+    finally:
+        calls[1] = None
+    if hist is None:
         return res
+    res.n = max(1, len(hist))
+    order_x = [h[0] for h in hist]
+    precs = [h[1] for h in hist]
+    monotone = all(order_x[i] < order_x[i + 1] for i in range(len(order_x) - 1))
+    res.nontrivial = (not monotone) or any(q != p0 for q in precs)
+    if not hist:
+        return res
+
+    # ---- oracle (i): closed form
+    for xf, pnow, vl in hist:
+        if pnow >= p0:
+            vals, b = bound(xf, pnow)
+            err = max(abs(mpref.mp.make_mpf(g_._mpf_) - e) for g_, e in zip(vl, vals))
+            if err:
+                lr = float(mpref.log(err / b, 2))
+                if "log2(err/bound)" not in res.metrics or lr > res.metrics["log2(err/bound)"]:
+                    res.metrics["log2(err/bound)"] = lr
+    worst = worst_error(hist)
+    accuracy_failed = worst[0] > 1
+    if accuracy_failed:
+        ratio, xf, pnow, vl, vals, err, b = worst
+        # diagnosis (names the bucket, not the verdict): replay the same history on an instance whose only
+        # difference is that it is created with 40 more bits (tol and degree pinned to the values in force)
+        kw2 = dict(kw)
+        if "tol" not in kw2:
+            kw2["tol"] = mp.ldexp(mp.mpf(1), -p0)
+        if "degree" not in kw2:
+            mp.prec = p0
+            kw2["degree"] = 3 + int(3 * mp.dps / 2.)
+        bucket = "accuracy:%s" % fam
+        try:
+            nv = len(res.violations)
+            h2 = run_history(make(p0 + 40, kw2), "f2")
+            del res.violations[nv:]
+            if h2 and worst_error(h2)[0] <= 1:
+                bucket = "accuracy:first-segment"
+        except Exception:
+            pass
+        finally:
+            mp.prec = p0
+        res.bad(bucket, "%s: f(%s) evaluated at prec %d = %s, exact %s; error %s is %s times the allowed %s%s" % (
+            desc, xf, pnow, [mp.nstr(t, 25) for t in vl], [mpref.nstr(t, 25) for t in vals], mpref.nstr(err, 5),
+            mpref.nstr(ratio, 5), mpref.nstr(b, 5),
+            " (the same history is accurate when the first segment is computed with 40 more bits)"
+            if bucket.endswith("segment") else ""))
+
+    # ---- oracle (ii): the twin evaluated in increasing order
+    for xf, pnow, vl in hist:
+        vals, b = bound(xf, min(pnow, p0))
+        ga = [mpref.mp.make_mpf(t._mpf_) for t in vl]
+        gb = [mpref.mp.make_mpf(t._mpf_) for t in gv[xf]]
+        diff = max(abs(a - b_) for a, b_ in zip(ga, gb))
+        # both values are roundings (to p_now and to p) of numbers of their own size
+        b = b + mpref.ldexp(max(abs(t) for t in ga + gb), 1 - min(pnow, p0))
+        if not diff <= b:
+            res.bad("order:%s" % fam, "%s: f(%s) in the history order %s (precisions %s) = %s but %s when the points "
+                    "are evaluated in increasing order at prec %d; difference %s, allowed %s" % (
+                        desc, xf, [str(t) for t in order_x], precs, [mp.nstr(t, 25) for t in vl],
+                        [mp.nstr(t, 25) for t in gv[xf]], p0, mpref.nstr(diff, 5), mpref.nstr(b, 5)))
+            break
+    return res
